@@ -27,6 +27,33 @@ EXPLANATION = (
 RULE_TEXT = "one obligation per def-use / shape fact; non-trivial = reaching definitions, must-pass-through, linear normal forms"
 
 
+def end_of_iteration(ctx, rid, nx):
+    """Every `raise StopIteration` of the v1 hasher is the exhaustion of the last file (empty read and no next file)."""
+    # zero read -> next file or stop, inside a loop
+    g = C.cfg_of(nx)
+    rds = [n for n in own_nodes(nx.node) if isinstance(n, ast.Assign) and isinstance(n.value, ast.Call) and isinstance(n.value.func, ast.Attribute) and n.value.func.attr == "readinto"
+           and isinstance(n.targets[0], ast.Name)]
+    SZ = rds[0].targets[0].id if rds else "size"
+    raises = [n for n in own_nodes(nx.node) if isinstance(n, ast.Raise) and "StopIteration" in norm(n.exc)]
+    ok = bool(raises)
+    early = None
+    for r in raises:
+        rn = C.stmt_node(ctx, nx, r)
+        deps = [(norm(C.test_expr(b)), lab) for b, lab in g.control_deps(rn) if C.test_expr(b) is not None]
+        z = any(t in ("%s == 0" % SZ, "not %s" % SZ) and lab == "true" for t, lab in deps)
+        nfc = any("next_file()" in t and ((t.startswith("not ") and lab == "true") or (not t.startswith("not ") and lab == "false")) for t, lab in deps)
+        if not (z and nfc):
+            # every way of ending the iteration must be the exhaustion of the last file, not a count computed elsewhere
+            ok = False
+            early = early or r
+    if early is not None:
+        raises = [early] + [r for r in raises if r is not early]
+    whiles = [n for n in own_nodes(nx.node) if isinstance(n, ast.While)]
+    ctx.decide(rid, nx, ok and bool(whiles), "iteration ends only when a read returns nothing and there is no next file; otherwise it reads on",
+               "the end of iteration is not tied to (empty read and no further file): files can be cut off or skipped", raises[0] if raises else nx.node)
+    return SZ
+
+
 def same_enumeration(ctx):
     cls = ctx.prog.cls("torrentfile.torrent:TorrentFile")
     fn = cls.methods["assemble"]
@@ -205,22 +232,8 @@ def v1_hasher(ctx):
     bufs = [n for n in own_nodes(nx.node) if isinstance(n, ast.Assign) and isinstance(n.value, ast.Call) and norm(n.value.func) == "bytearray"]
     ok = len(bufs) == 1 and norm(bufs[0].value.args[0]) == PL
     ctx.decide("C01.6", nx, ok, "read buffer is piece_length bytes", "read buffer is bytearray(%s), not piece_length" % (norm(bufs[0].value.args[0]) if bufs else "?"), bufs[0] if bufs else nx.node)
-    # zero read -> next file or stop, inside a loop
     g = C.cfg_of(nx)
-    rds = [n for n in own_nodes(nx.node) if isinstance(n, ast.Assign) and isinstance(n.value, ast.Call) and isinstance(n.value.func, ast.Attribute) and n.value.func.attr == "readinto"
-           and isinstance(n.targets[0], ast.Name)]
-    SZ = rds[0].targets[0].id if rds else "size"
-    raises = [n for n in own_nodes(nx.node) if isinstance(n, ast.Raise) and "StopIteration" in norm(n.exc)]
-    ok = False
-    for r in raises:
-        rn = C.stmt_node(ctx, nx, r)
-        deps = [(norm(C.test_expr(b)), lab) for b, lab in g.control_deps(rn) if C.test_expr(b) is not None]
-        z = any(t in ("%s == 0" % SZ, "not %s" % SZ) and lab == "true" for t, lab in deps)
-        nfc = any("next_file()" in t and ((t.startswith("not ") and lab == "true") or (not t.startswith("not ") and lab == "false")) for t, lab in deps)
-        ok = ok or (z and nfc)
-    whiles = [n for n in own_nodes(nx.node) if isinstance(n, ast.While)]
-    ctx.decide("C01.6", nx, ok and bool(whiles), "iteration ends only when a read returns nothing and there is no next file; otherwise it reads on",
-               "the end of iteration is not tied to (empty read and no further file): files can be cut off or skipped", raises[0] if raises else nx.node)
+    SZ = end_of_iteration(ctx, "C01.6", nx)
     # partial hand-over: called for size < piece_length with piece[:size]
     calls = [n for n in own_nodes(nx.node) if isinstance(n, ast.Call) and any(t is hp for t in C.targets_of(ctx, nx, n))]
     for c in calls:
